@@ -118,5 +118,30 @@ PROPS["C10"] = dict(
     assumptions=["SQLite executes each prepared statement with SQL semantics", "the durable-streams server used is the in-memory reference storage"],
 )
 
+PROPS["C11"] = dict(
+    title="Replay delivers every event after the offset, or says that it did not",
+    theorems="Properties/C11.v",
+    proof_files=["Store/ReplayModel.v", "Store/ReplayProofs.v", "Store/StoreProofs.v", "Properties/C11.v"],
+    suites=[dict(name="replay", mod="core", family="replay", corr="Corr.CorrReplay", check="check11",
+                 env={"VERIF_TMP": "/verif/.build/tmp"})],
+    level_text="Proved in Coq for every log, start offset, batch size >= 1 and fault (callback failure, cancellation, "
+               "row-fetch error, failing Read call): each Replay path (MemoryStore stream, SQLite cursor stream, SQLite "
+               "batched stream, paged fallback over any store meeting C10's read specification) hands the callback a "
+               "gap-free, duplicate-free prefix in log order and returns nil only if that prefix is everything; the "
+               "paged and batched loops terminate within remaining+2 iterations (fuel sufficiency). Tied to persist.go "
+               "and stores/sqlite/store.go by differential runs over (store x configuration x batch x length x start x "
+               "fault kind x fault position), with SQLite row errors injected through the verif-tagged opener hook.",
+    level_note="Trusted: Coq kernel + vm_compute; hand-written models of Replay, ReadStream, streamRows/streamBatched/"
+               "streamBatch; database/sql closes the rows of a cancelled query (the harness waits for that before the "
+               "callback returns, making it deterministic); the fault-injecting driver wraps modernc sqlite through "
+               "the non-context driver interfaces; harness and printer. Replay's purity (no append, no handler) is a "
+               "typing fact of the model and is observed, not proved.",
+    rule="cases = seeded tuples (store kind in {memory stream, memory paged, SQLite stream, SQLite batched, durable-streams "
+         "paged}, batch in {1,2,3,rem-1,rem,rem+1,100,default}, server chunk in {1,2,3,5,unlimited}, log length 0-13 "
+         "(thorough 0-25), start position, fault in {none, callback fails at i, context cancelled at i, row fetch fails at "
+         "k, j-th Read fails}); 8 directed cases first; non-trivial = at least 2 events remain after the start offset; "
+         "distinct = distinct input tuple",
+)
+
 NOT_CLAIMED = {p: "check not built yet in this session (work in progress; planned per DESIGN.md section 6)" for p in
                ["C%02d" % i for i in range(1, 21)]}
